@@ -27,7 +27,9 @@ CONSTANTS Ops, Defs, UserFiles, MaxHist
 Cmds    == {"server", "client", "model", "operation", "support"}
 \* custom_layout: the layout file documented in docs/reference/templates/template_layout.md (-C), in which
 \* the generated-once file is declared by `skip_exists: true`, with the documented name -A TodoList
-OptSets == {"default", "regen_configure", "skip_models", "skip_operations", "skip_support", "exclude_main", "impl_package", "custom_layout"}
+\* exclude_main_pkg: --exclude-main together with --main-package: the user keeps a hand-written main in
+\* cmd/<main-package> (user file u4 lives exactly there)
+OptSets == {"default", "regen_configure", "skip_models", "skip_operations", "skip_support", "exclude_main", "exclude_main_pkg", "impl_package", "custom_layout"}
 OptsOf(cmd) == IF cmd = "server" THEN OptSets
                ELSE {"default"}      \* `generate support` has no --regenerate-configureapi: it never rewrites an existing configure file
 
@@ -61,7 +63,7 @@ Responsible(cmd, opt, sp) ==
          \cup (IF opt = "skip_operations" THEN {} ELSE SOps(sp))
          \cup (IF opt = "skip_support" THEN {}
                ELSE {P("support", "-"), IF opt = "impl_package" THEN P("autoconf", "-") ELSE P("configure", "-")}
-                    \cup (IF opt = "exclude_main" THEN {} ELSE {P("main", "-")}))
+                    \cup (IF opt \in {"exclude_main", "exclude_main_pkg"} THEN {} ELSE {P("main", "-")}))
     [] cmd = "client"    -> Models(sp) \cup COps(sp) \cup {P("facade", "-")}
     [] cmd = "model"     -> Models(sp)
     [] cmd = "operation" -> SOps(sp)
